@@ -11,7 +11,7 @@ from fractions import Fraction
 from . import common as C
 
 PID = 'C07'
-THEOREMS = ['C07_get_candles_is_aggregation', 'C07_agg_spec', 'C07_timeframe_tables_agree']
+THEOREMS = ['C07_step_minute_keeps_invariant', 'C07_normal_simulator_views_are_aggregations', 'C07_feed_list_is_feed', 'C07_get_candles_is_aggregation', 'C07_agg_spec', 'C07_timeframe_tables_agree']
 TFM = {'1m': 1, '3m': 3, '5m': 5, '15m': 15, '30m': 30, '45m': 45, '1h': 60, '2h': 120}
 
 
@@ -131,8 +131,8 @@ def run(tier, seed, replay=None):
     res.trusted = ['Coq 8.16.1 kernel + vm_compute', 'Model/CandleView.v + Model/CandleStore.v (hand-written) tied by correspondence; timeframe tables regenerated',
                    'harness/c07.py, engine.py']
     res.assumptions = ['sessions start and warm-up lengths aligned to every route timeframe (as the property says)',
-                       'the invariant VInv is proved to imply the view theorem; its preservation by the simulators is checked by correspondence of the raw '
-                       'stores (step simulator) and by the view monitor at hook invocations (both simulators), not by a theorem',
+                       'the normal simulator is proved to keep the store invariant for every aligned series and any fills (theorem over the feed model, which is run against '
+                       'the real stores); for the FAST simulator and the warm-up injection the invariant is covered by the view monitor at hook invocations, not by a theorem',
                        'volumes are integers in generated data, so numpy summation order does not matter']
     from translator import gen_all
     ok, msgs = gen_all.generate()
@@ -161,7 +161,8 @@ def run(tier, seed, replay=None):
     # keep the Coq input manageable: all fill-time observations, a sample of the rest
     idx = [i for i, m in enumerate(view_meta) if m['hook'] != 'before' and m['hook'] != 'update_position']
     rest = [i for i in range(len(view_meta)) if i not in set(idx)]
-    keep = idx + (rest if len(rest) < 150 else [rest[i] for i in sorted(rng.sample(range(len(rest)), 150 if tier == 'quick' else 1500))])
+    cap = 150 if tier == 'quick' else 1500
+    keep = idx + (rest if len(rest) <= cap else [rest[i] for i in sorted(rng.sample(range(len(rest)), cap))])
     hdr = 'From Coq Require Import ZArith QArith Qcanon List Bool Arith.\nFrom JV Require Import Base.Num Model.CandleView Run.Harness Run.C07Run.\nImport ListNotations.\n'
     jobs = []
     SH = 12
